@@ -88,7 +88,8 @@ class SumLinearOperator(LinearOperator):
         from linear_operator.operators.diag_linear_operator import DiagLinearOperator
 
         if isinstance(other, ZeroLinearOperator):
-            return self
+            shape = torch.broadcast_shapes(self.shape, other.shape)
+            return self if self.shape == shape else self.expand(*shape)
         elif isinstance(other, DiagLinearOperator):
             return AddedDiagLinearOperator(self, other)
         elif isinstance(other, SumLinearOperator):
